@@ -1,7 +1,7 @@
 ---------------------------- MODULE Connect_Trace ----------------------------
 (* Validation of recorded connect phases (harness/fv/connect_run.py):       *)
 (* ev[i] = [c, st, inX, inD, outP, outX, outD, pubs, tok] after every       *)
-(* Component.connect call; end = [out, unconnected]                         *)
+(* Component.connect call; end = [out, unconnected, meta]                   *)
 EXTENDS ConnectOps, Json, IOUtils, TLC
 Traces == ndJsonDeserialize(IOEnv.TRACE_FILE)
 VARIABLES tid, i, s, verdict
@@ -27,7 +27,12 @@ EvVerdict(cfg, st, e, k) ==
 
 EndVerdict(cfg, st, en, k) ==
   LET open == {c \in Comps(cfg) : st.st[c] # "connected"} IN
-  IF en.out = "ok" THEN (IF open = {} /\ StuckSet(cfg) = {} THEN "ok" ELSE Fail("connect-outcome", k))
+  IF en.out = "ok" THEN
+     (IF ~(open = {} /\ StuckSet(cfg) = {}) THEN Fail("connect-outcome", k)
+      \* en.meta[c] = [inm, outm]: markers found in the exchanged infos of the slots afterwards
+      ELSE IF \E c \in Comps(cfg) : cfg.comps[c].hasout /\ en.meta[c].outm # OutM(cfg, c, Fuel(cfg)) THEN Fail("metadata-provenance", k)
+      ELSE IF \E c \in Comps(cfg) : cfg.comps[c].hasin /\ en.meta[c].inm # InM(cfg, c, Fuel(cfg)) THEN Fail("metadata-provenance", k)
+      ELSE "ok")
   ELSE IF en.out = "stall" THEN
      (IF StuckSet(cfg) = {} THEN Fail("false-stall", k)
       ELSE IF {en.unconnected[x] : x \in 1..Len(en.unconnected)} # StuckSet(cfg) THEN Fail("stall-set", k)
